@@ -19,7 +19,7 @@ if rc != 0:
   rc = subprocess.call(["patch", "-p1", "-s", "-i", os.path.abspath(patch)], cwd=wt)
 res = {"seed": seed, "files": files, "patch_applies": rc == 0, "runs": []}
 if rc == 0:
-  env = dict(os.environ, VERIF_REPO=wt, VERIF_NO_PLAYBACK="1", VERIF_SCRATCH="/var/tmp/fibre-verif.seed%d" % os.getpid())
+  env = dict(os.environ, VERIF_LOGTAG="-seed%d" % os.getpid(), VERIF_REPO=wt, VERIF_NO_PLAYBACK="1", VERIF_SCRATCH="/var/tmp/fibre-verif.seed%d" % os.getpid())
   cmds = [["./check", "ALL", "--touch", ",".join(files), "--tier", tier, "--no-evidence"]] if props is None else [["./check", p, "--tier", tier, "--no-evidence"] for p in props]
   for cmd in cmds:
     t0 = time.time()
